@@ -1,7 +1,329 @@
 package main
 
-// tryReplay turns a solver model into an execution of the real code where a
-// replay harness exists for the function. Returns (reproduced, transcript).
+import (
+	"encoding/json"
+	"fmt"
+	"go/types"
+	"math/big"
+	"os"
+	"os/exec"
+	"path/filepath"
+	"regexp"
+	"strings"
+	"time"
+)
+
+// tryReplay turns a solver model into an execution of the real code. It covers
+// the functions whose inputs the model determines completely without any heap:
+// plain functions (no receiver) whose parameters are integers or booleans and
+// whose results are integers, booleans or an error, and POST obligations whose
+// clause uses only arithmetic, comparisons, connectives, old(), code(), ite(),
+// min(), max() and pure definitions over them. The model's parameter values
+// are fed to the function in a test that is injected into the package through
+// a build overlay (nothing is written into the repository); the postcondition
+// is re-evaluated in Go on what the real code returned. Returns (reproduced,
+// transcript).
 func tryReplay(e *Engine, o *Obligation, model, repo, verif string) (bool, string) {
-	return false, ""
+	r := o.run
+	if r == nil || r.fn == nil || r.c == nil || o.Kind != "POST" || o.inst == nil {
+		return false, ""
+	}
+	fn := r.fn
+	sig := fn.Signature
+	if sig.Recv() != nil || fn.Parent() != nil || fn.Pkg == nil {
+		return false, ""
+	}
+	// the clause
+	i := strings.Index(o.Name, ":POST:")
+	if i < 0 {
+		return false, ""
+	}
+	label := o.Name[i+len(":POST:"):]
+	if j := strings.Index(label, "/"); j >= 0 {
+		label = label[:j]
+	}
+	var clause *Clause
+	for k := range r.c.Ensures {
+		if r.c.Ensures[k].Label == label {
+			clause = &r.c.Ensures[k]
+		}
+	}
+	if clause == nil {
+		return false, ""
+	}
+	// parameters
+	tr := &goTranslator{e: e, vars: map[string]string{}, errs: map[string]bool{}}
+	var decls, args, shown []string
+	for k := 0; k < sig.Params().Len(); k++ {
+		p := sig.Params().At(k)
+		b, ok := under(p.Type()).(*types.Basic)
+		if !ok || b.Info()&(types.IsInteger|types.IsBoolean) == 0 {
+			return false, ""
+		}
+		val, ok := modelValue(model, "p_"+sanitize(p.Name())+"_")
+		if !ok {
+			return false, "replay: the model has no value for parameter " + p.Name()
+		}
+		ts := types.TypeString(p.Type(), func(pk *types.Package) string {
+			if pk == fn.Pkg.Pkg {
+				return ""
+			}
+			return pk.Name()
+		})
+		lit := val
+		if b.Info()&types.IsBoolean != 0 {
+			decls = append(decls, fmt.Sprintf("\tvar in_%s %s = %s", p.Name(), ts, lit))
+		} else {
+			n, ok := new(big.Int).SetString(val, 10)
+			if !ok {
+				return false, ""
+			}
+			lo, hi, _ := intRange(b)
+			if lo != nil && (n.Cmp(lo) < 0 || n.Cmp(hi) > 0) {
+				return false, "replay: model value out of range for " + p.Name()
+			}
+			if n.Sign() < 0 {
+				decls = append(decls, fmt.Sprintf("\tvar in_%s %s = %s", p.Name(), ts, n.String()))
+			} else {
+				decls = append(decls, fmt.Sprintf("\tvar in_%s %s = %s", p.Name(), ts, n.String()))
+			}
+		}
+		tr.vars[p.Name()] = "in_" + p.Name()
+		args = append(args, "in_"+p.Name())
+		shown = append(shown, p.Name()+"="+lit)
+	}
+	// results
+	var outs []string
+	for k := 0; k < sig.Results().Len(); k++ {
+		rt := sig.Results().At(k)
+		isErr := types.Identical(rt.Type(), types.Universe.Lookup("error").Type())
+		if b, ok := under(rt.Type()).(*types.Basic); !isErr && (!ok || b.Info()&(types.IsInteger|types.IsBoolean) == 0) {
+			return false, ""
+		}
+		name := fmt.Sprintf("out%d", k)
+		outs = append(outs, name)
+		tr.vars[fmt.Sprintf("result%d", k)] = name
+		if n := rt.Name(); n != "" && n != "_" {
+			tr.vars[n] = name
+		}
+		if isErr {
+			tr.vars["err"] = name
+			tr.errs[name] = true
+		}
+	}
+	if len(outs) == 1 {
+		tr.vars["result"] = outs[0]
+	}
+	cond, ok := tr.expr(clause.E)
+	if !ok {
+		return false, "replay: the clause uses constructs the replay harness cannot evaluate in Go (" + tr.why + ")"
+	}
+	call := fn.Name() + "(" + strings.Join(args, ", ") + ")"
+	var sb strings.Builder
+	fmt.Fprintf(&sb, "package %s\n\nimport (\n\t\"testing\"\n\n\t\"google.golang.org/grpc/codes\"\n\t\"google.golang.org/grpc/status\"\n)\n\n", fn.Pkg.Pkg.Name())
+	sb.WriteString("var _ = codes.OK\nvar _ = status.Code\n\n")
+	sb.WriteString("func vcgoImp(a, b bool) bool { return !a || b }\n\n")
+	sb.WriteString("func TestVcgoReplay(t *testing.T) {\n")
+	sb.WriteString(strings.Join(decls, "\n") + "\n")
+	if len(outs) > 0 {
+		fmt.Fprintf(&sb, "\t%s := %s\n", strings.Join(outs, ", "), call)
+		for _, o := range outs {
+			fmt.Fprintf(&sb, "\t_ = %s\n", o)
+		}
+	} else {
+		fmt.Fprintf(&sb, "\t%s\n", call)
+	}
+	fmt.Fprintf(&sb, "\tif !(%s) {\n\t\tt.Fatalf(\"VCGO-REPLAY-VIOLATION %%s: %s returned %%v\", %q, []interface{}{%s})\n\t}\n}\n",
+		cond, strings.ReplaceAll(call, "\"", "'"), o.Name+" for "+strings.Join(shown, " "), strings.Join(outs, ", "))
+	src := sb.String()
+
+	// run it through an overlay
+	pkgDir := ""
+	if lp := e.lpkgs[fn.Pkg.Pkg.Path()]; lp != nil && len(lp.GoFiles) > 0 {
+		pkgDir = filepath.Dir(lp.GoFiles[0])
+	}
+	if pkgDir == "" {
+		return false, ""
+	}
+	tmp, err := os.MkdirTemp("", "vcgo-replay-")
+	if err != nil {
+		return false, ""
+	}
+	defer os.RemoveAll(tmp)
+	tf := filepath.Join(tmp, "replay_test.go")
+	os.WriteFile(tf, []byte(src), 0o644)
+	rep := map[string]string{}
+	if ms, _ := filepath.Glob(filepath.Join(pkgDir, "*_test.go")); ms != nil {
+		for _, m := range ms {
+			rep[m] = "" // the package's own tests need generated mocks; hide them
+		}
+	}
+	rep[filepath.Join(pkgDir, "zz_vcgo_replay_test.go")] = tf
+	ov, _ := json.Marshal(map[string]interface{}{"Replace": rep})
+	ovf := filepath.Join(tmp, "overlay.json")
+	os.WriteFile(ovf, ov, 0o644)
+	cmd := exec.Command("go", "test", "-overlay", ovf, "-vet=off", "-count=1", "-timeout", "60s", "-run", "^TestVcgoReplay$", ".")
+	cmd.Dir = pkgDir
+	done := make(chan struct{})
+	var out []byte
+	go func() { out, _ = cmd.CombinedOutput(); close(done) }()
+	select {
+	case <-done:
+	case <-time.After(180 * time.Second):
+		if cmd.Process != nil {
+			cmd.Process.Kill()
+		}
+		return false, "replay: go test did not finish"
+	}
+	text := string(out)
+	if len(text) > 4000 {
+		text = text[:4000]
+	}
+	transcript := "input (from the solver's model): " + strings.Join(shown, " ") + "\n--- injected test\n" + src + "--- go test output\n" + text
+	if strings.Contains(string(out), "VCGO-REPLAY-VIOLATION") {
+		return true, transcript
+	}
+	return false, "replay attempted, the real code did not violate the clause on the model's input (the model may rely on abstracted arithmetic)\n" + transcript
+}
+
+var modelValRe = regexp.MustCompile(`\(define-fun ([A-Za-z0-9_]+) \(\) (Int|Bool|\(_ BitVec \d+\))\s+([^\n]*)\)`)
+
+// modelValue finds the value of the first constant whose name starts with
+// prefix followed by digits.
+func modelValue(model, prefix string) (string, bool) {
+	for _, m := range modelValRe.FindAllStringSubmatch(model, -1) {
+		name := m[1]
+		if !strings.HasPrefix(name, prefix) {
+			continue
+		}
+		rest := name[len(prefix):]
+		if rest == "" || strings.Trim(rest, "0123456789") != "" {
+			continue
+		}
+		v := strings.TrimSpace(m[3])
+		switch {
+		case v == "true" || v == "false":
+			return v, true
+		case strings.HasPrefix(v, "#x"):
+			n, ok := new(big.Int).SetString(v[2:], 16)
+			if !ok {
+				return "", false
+			}
+			return n.String(), true
+		case strings.HasPrefix(v, "#b"):
+			n, ok := new(big.Int).SetString(v[2:], 2)
+			if !ok {
+				return "", false
+			}
+			return n.String(), true
+		case strings.HasPrefix(v, "(- "):
+			return "-" + strings.TrimSuffix(strings.TrimPrefix(v, "(- "), ")"), true
+		default:
+			if _, ok := new(big.Int).SetString(v, 10); ok {
+				return v, true
+			}
+		}
+	}
+	return "", false
+}
+
+type goTranslator struct {
+	e    *Engine
+	vars map[string]string
+	errs map[string]bool
+	why  string
+}
+
+func (t *goTranslator) fail(f string, a ...interface{}) (string, bool) {
+	t.why = fmt.Sprintf(f, a...)
+	return "", false
+}
+
+func (t *goTranslator) expr(e SExpr) (string, bool) {
+	if t.errs == nil {
+		t.errs = map[string]bool{}
+	}
+	switch x := e.(type) {
+	case SNum:
+		return x.Val, true
+	case SIdent:
+		if v, ok := t.vars[x.Name]; ok {
+			return v, true
+		}
+		switch x.Name {
+		case "true", "false", "nil":
+			return x.Name, true
+		}
+		if _, ok := grpcCodes[x.Name]; ok {
+			return "codes." + x.Name, true
+		}
+		if c, ok := t.e.cs.Consts[x.Name]; ok {
+			return t.expr(c)
+		}
+		return t.fail("identifier %s", x.Name)
+	case SUn:
+		a, ok := t.expr(x.X)
+		if !ok {
+			return "", false
+		}
+		return "(" + x.Op + a + ")", true
+	case SBin:
+		a, ok := t.expr(x.X)
+		if !ok {
+			return "", false
+		}
+		b, ok := t.expr(x.Y)
+		if !ok {
+			return "", false
+		}
+		switch x.Op {
+		case "==>":
+			return "vcgoImp(" + a + ", " + b + ")", true
+		case "<==>":
+			return "((" + a + ") == (" + b + "))", true
+		case "&&", "||", "==", "!=", "<", "<=", ">", ">=", "+", "-", "*", "/", "%", "&", "|", "^", "<<", ">>":
+			return "(" + a + " " + x.Op + " " + b + ")", true
+		}
+		return t.fail("operator %s", x.Op)
+	case SCall:
+		switch x.Fun {
+		case "old":
+			return t.expr(x.Args[0])
+		case "code":
+			a, ok := t.expr(x.Args[0])
+			if !ok {
+				return "", false
+			}
+			return "status.Code(" + a + ")", true
+		case "ite":
+			c, ok1 := t.expr(x.Args[0])
+			a, ok2 := t.expr(x.Args[1])
+			b, ok3 := t.expr(x.Args[2])
+			if !ok1 || !ok2 || !ok3 {
+				return "", false
+			}
+			return "func() int64 { if " + c + " { return int64(" + a + ") }; return int64(" + b + ") }()", true
+		}
+		if p, ok := t.e.cs.Pures[x.Fun]; ok && len(p.Params) == len(x.Args) {
+			save := map[string]string{}
+			for i, n := range p.Params {
+				a, ok := t.expr(x.Args[i])
+				if !ok {
+					return "", false
+				}
+				save[n] = t.vars[n]
+				defer func(n string) {
+					if save[n] == "" {
+						delete(t.vars, n)
+					} else {
+						t.vars[n] = save[n]
+					}
+				}(n)
+				t.vars[n] = a
+			}
+			return t.expr(p.Body)
+		}
+		return t.fail("function %s", x.Fun)
+	}
+	return t.fail("%T", e)
 }
